@@ -282,6 +282,181 @@ def build_named(bt, spec):
     return bt.Backtest(s, data, initial_capital=sp["capital"], integer_positions=sp["integer"], additional_data={"extra": frame}, progress_bar=False)
 
 
+# (rows are never removed: the property speaks of changed VALUES after t, and the stock schedulers treat the last row of the index
+# specially - `run_on_last_date` - by design)
+DYN_MODES = ["suspend", "suspend", "suspend", "relist", "relist", "nan", "random"]
+
+
+def gen_dynamic_spec(rng):
+    """a parent whose own stack opens sub-strategies while the run is going on (`bt.Strategy(name, algos, children, parent=target)`,
+    `setup_from_parent()`, as examples/pairs_trading.py does) - usually after having looked at `target.universe` on that date - and then
+    goes on, on the same date, with SelectHasData (the stock algo whose window has no upper end of its own), a weigher and Rebalance.
+    Some securities were listed only a few rows before the opening date, so that the number of prices inside the lookback decides the
+    `min_count` test. After the cut: other numbers / the recently listed names stop trading / everything NaN / (the names
+    are halted after the cut as supplied, and trade on in the twin)"""
+    T = rng.randint(14, 24)
+    dates, ikind = R.gen_index(rng, T, kind=rng.choice(["D", "B", "B", "W", "sparse"]))
+    n = rng.randint(3, 5)
+    tk = R.TICKERS[:n]
+    prices = {}
+    for t in tk:
+        p = rng.uniform(20.0, 120.0)
+        col = []
+        for _ in range(T):
+            col.append(round(p, 2))
+            p = max(1.0, p * (1.0 + rng.uniform(-0.03, 0.035)))
+        prices[t] = col
+    d = rng.randint(6, T - 4)                       # row on which the (first) sub-strategy is opened
+    recent = rng.sample(tk[2:], rng.randint(1, min(2, n - 2)))
+    listed = {}
+    for t in recent:
+        L = rng.randint(1, 5)                       # prices the name has on row d, that row included
+        listed[t] = L
+        for i in range(0, d - L + 1):
+            prices[t][i] = None
+    w = rng.randint(max(listed.values()), d - 1)    # the window reaches w rows back from row d
+    ds = [pd.Timestamp(x) for x in dates]
+    lookback_days = int((ds[d] - ds[d - w]).days)
+    if rng.random() < 0.15:
+        min_count = rng.randint(1, min(listed.values()))                    # met on row d already
+    else:
+        min_count = min(w + 1, rng.choice(list(listed.values())) + rng.randint(1, 3))      # met only with prices that come later
+    opens = []
+    for k in range(rng.randint(1, 2)):
+        row = d if k == 0 else rng.randint(d, T - 2)
+        pair = rng.sample(tk[:2] + [t for t in tk[2:] if t not in recent], 2) if n - len(recent) >= 2 else list(tk[:2])
+        if rng.random() < 0.3:
+            # opened on the first date from `row` on, on which the price seen today is at least a level (which it is on `row`)
+            opens.append({"kind": "price", "after": row, "ticker": pair[0], "level": prices[pair[0]][row] * rng.choice([0.5, 0.9, 1.0]), "tickers": pair})
+        else:
+            opens.append({"kind": "date", "row": row, "tickers": pair})
+        opens[-1]["stack"] = rng.choice(["once-equal", "once-equal", "daily-all", "idle"])
+    sched = rng.choice(["daily", "daily", "dates"])
+    rows = sorted(set([d] + [o.get("row", o.get("after")) for o in opens] + rng.sample(range(1, T), rng.randint(0, 4))))
+    i = min(T - 2, d + rng.randint(0, 2)) if rng.random() < 0.7 else rng.randint(0, T - 2)
+    mode = rng.choice(DYN_MODES)
+    spec = {"kind": "dynamic", "dates": dates, "index": ikind, "tickers": tk, "prices": prices, "capital": 1000000.0,
+            "dyn": {"d": d, "recent": sorted(recent), "listed": listed, "lookback_days": lookback_days, "min_count": min_count,
+                    "include_no_data": rng.random() < 0.2, "opens": opens, "sched": sched, "rows": rows,
+                    "reads": rng.choice(["today", "today", "today", "frame", "none"]), "bring": rng.choice(["parent", "parent", "child"]),
+                    "momentum": rng.randint(1, n) if rng.random() < 0.2 else None,
+                    "weigher": rng.choice(["equal", "equal", "equal", "invvol"]), "share": rng.choice([0.1, 0.2, 0.5]),
+                    # as supplied, these names stop trading right after the cut (and trade on in the twin: mode "relist")
+                    "halt": {t: i + 1 for t in (recent if rng.random() < 0.6 else recent[:1])} if mode == "relist" else {}},
+            "perturb_plan": {"cut": dates[i], "mode": mode, "seed": rng.randint(0, 10 ** 6),
+                             "pos": "before-open" if i < d else ("open-date" if i == d else "after-open")}}
+    return spec
+
+
+def dynamic_frame(spec):
+    """the price frame of a `gen_dynamic_spec` run; with `spec['perturb']`, the twin's frame: equal on every row dated <= cut"""
+    import random as _r
+    cols = copy.deepcopy(spec["prices"])
+    dates = list(spec["dates"])
+    dyn = spec["dyn"]
+    pt = spec.get("perturb")
+    T = len(dates)
+    k = T if not pt else sum(1 for x in dates if pd.Timestamp(x) <= pd.Timestamp(pt["cut"]))
+    for t, row in dyn["halt"].items():
+        if not (pt and pt["mode"] == "relist" and row >= k):
+            for i in range(row, T):
+                cols[t][i] = None
+    if pt:
+        r = _r.Random(pt.get("seed", 0))
+        mode = pt["mode"]
+        for t in spec["tickers"]:
+            for i in range(k, T):
+                v = cols[t][i]
+                if mode == "nan" or (mode == "suspend" and t in dyn["recent"]):
+                    cols[t][i] = None
+                elif mode in ("random", "suspend") and v is not None:
+                    cols[t][i] = round(v * r.uniform(0.5, 1.6), 2)
+    return R.frame(cols, dates)
+
+
+def build_dynamic(bt, spec):
+    a = bt.algos
+    dyn = spec["dyn"]
+    data = dynamic_frame(spec)
+    row_of = {pd.Timestamp(x): i for i, x in enumerate(spec["dates"])}
+    names = ["T%d" % k for k in range(len(dyn["opens"]))]
+
+    def child_stack(op):
+        if op["stack"] == "once-equal":
+            return [a.RunOnce(), a.SelectThese(list(op["tickers"])), a.WeighEqually(), a.Rebalance()]
+        if op["stack"] == "daily-all":
+            return [a.RunDaily(), a.SelectAll(), a.WeighEqually(), a.Rebalance()]
+        return []
+
+    class Open(bt.Algo):
+        """opens the sub-strategies that are due, having looked at the data of today"""
+
+        def __call__(self, target):
+            i = row_of.get(pd.Timestamp(target.now))
+            if i is None:
+                return True
+            px = None
+            if dyn["reads"] == "today":
+                px = target.universe.loc[target.now]
+            elif dyn["reads"] == "frame":
+                _ = len(target.universe)
+            for name, op in zip(names, dyn["opens"]):
+                if name in target.children:
+                    continue
+                if op["kind"] == "date":
+                    fire = i >= op["row"]
+                else:
+                    p = px if px is not None else target.universe.loc[target.now]
+                    fire = i >= op["after"] and bool(p[op["ticker"]] >= op["level"])
+                if fire:
+                    kid = bt.Strategy(name, child_stack(op), children=list(op["tickers"]), parent=target)
+                    kid.setup_from_parent()
+                    if dyn["bring"] == "parent":
+                        target.update(target.now)       # brings the new node to today's date (as the example does)
+                    else:
+                        kid.update(target.now)
+            return True
+
+    class Fund(bt.Algo):
+        """gives every open sub-strategy a share of the capital, the rest keeps its proportions"""
+
+        def __call__(self, target):
+            live = [nm for nm in names if nm in target.children]
+            w = {k: v for k, v in target.temp.get("weights", {}).items() if k not in names}
+            rest = 1.0 - dyn["share"] * len(live) / float(len(names))
+            w = {k: v * rest for k, v in w.items()}
+            for nm in live:
+                w[nm] = dyn["share"] / float(len(names))
+            target.temp["weights"] = w
+            return True
+
+    lb = pd.DateOffset(days=dyn["lookback_days"])
+    stack = [a.RunDaily() if dyn["sched"] == "daily" else a.RunOnDate(*[spec["dates"][r] for r in dyn["rows"]]), Open(),
+             a.SelectHasData(lookback=lb, min_count=dyn["min_count"], include_no_data=dyn["include_no_data"])]
+    if dyn["momentum"]:
+        stack.append(a.SelectMomentum(dyn["momentum"], lookback=lb))
+    stack += [a.WeighEqually() if dyn["weigher"] == "equal" else a.WeighInvVol(lookback=lb), Fund(), a.Rebalance()]
+    s = bt.Strategy("top", algos=stack)
+    return bt.Backtest(s, data, initial_capital=spec["capital"], integer_positions=False, progress_bar=False)
+
+
+def dynamic_twin_cases(ctx, bt, n):
+    for _ in range(n):
+        spec = gen_dynamic_spec(ctx.rng)
+        dyn, plan = spec["dyn"], spec["perturb_plan"]
+        ctx.evaluations += 1
+        ctx.count("dynamic-substrategy-twin-runs")
+        ctx.count("dynamic-substrategy-twin-runs:" + plan["mode"])
+        ctx.count("dynamic-substrategy-twin-runs:cut-" + plan["pos"])
+        if dyn["reads"] != "none" or any(o["kind"] == "price" for o in dyn["opens"]):
+            ctx.count("dynamic-substrategy-twin-runs:universe-read-before-the-opening")
+        ctx.classes.add(("dynamic", len(dyn["opens"]), dyn["sched"], dyn["reads"], dyn["weigher"], plan["mode"], plan["pos"]))
+        before = len(ctx.violations)
+        run_pair(ctx, bt, spec, build_dynamic)
+        if len(ctx.violations) > before:
+            break
+
+
 def gen_plan(rng, dates):
     i = rng.randint(0, len(dates) - 2)
     return {"cut": dates[i], "mode": rng.choice(["nan", "x10", "flip", "random", "random", "drop"]), "seed": rng.randint(0, 10 ** 6),
@@ -289,6 +464,8 @@ def gen_plan(rng, dates):
 
 
 def run(ctx, bt, scale=1):
+    # sub-strategies opened by the parent's own stack mid-run, followed on the same date by an open-ended window reader
+    dynamic_twin_cases(ctx, bt, ctx.scale(36, 800) * scale)
     for _ in range(ctx.scale(110, 3000) * scale):
         spec = R.gen_run_spec(ctx.rng)
         spec["perturb_plan"] = gen_plan(ctx.rng, spec["dates"])
@@ -396,4 +573,4 @@ def replay(bt, data, ctx):
         run_risk_pair(ctx, bt, case["risk_spec"], case["cut_i"])
         return
     spec = case["spec"]
-    run_pair(ctx, bt, spec, build_fi if case.get("kind") == "fi" else build_blotter if case.get("kind") == "blotter" else build_named if case.get("kind") == "named" else build_program)
+    run_pair(ctx, bt, spec, build_fi if case.get("kind") == "fi" else build_blotter if case.get("kind") == "blotter" else build_named if case.get("kind") == "named" else build_dynamic if case.get("kind") == "dynamic" else build_program)
